@@ -3,8 +3,10 @@
 import json, os, shutil, sys, glob
 pid, k, caught, needs = sys.argv[1:5]
 extra = sys.argv[5] if len(sys.argv) > 5 else ""
-src = "/tmp/mut-%s/%s" % (pid, k)
-dst = "/verif/seeded/%s-%s" % (pid, k)
+rnd = os.environ.get("ROUND", "")
+src = "/tmp/mut-%s%s/%s" % (pid, rnd and "-r"+rnd, k)
+k2 = str(int(k) + 3*(int(rnd)-1)) if rnd else k
+dst = "/verif/seeded/%s-%s" % (pid, k2)
 os.makedirs(dst, exist_ok=True)
 shutil.copy(os.path.join(src, "patch.diff"), dst)
 for f in glob.glob(os.path.join(src, "*_test.go")) + glob.glob(os.path.join(src, "*.go")) + glob.glob(os.path.join(src, "README.md")):
@@ -19,7 +21,7 @@ for w in ("with", "existing", "without"):
 meta = {"property": pid, "source": "independent sub-agent given only the property text and a scratch worktree",
         "needs_to_manifest": needs, "caught_by_check": caught, "notes": extra,
         "what_i_ran": ["tools/confirm_mut.sh %s %s <pkg> <demo>  (scratch worktree: demo fails with patch, passes without; existing package tests pass with patch)" % (pid, k),
-                       "tools/trymut.sh %s seeded/%s-%s/patch.diff  (git -C /repo apply; ./check %s; git -C /repo checkout -- .)" % (pid, pid, k, pid)],
+                       "tools/trymut.sh %s seeded/%s-%s/patch.diff  (git -C /repo apply; ./check %s; git -C /repo checkout -- .)" % (pid, pid, k2, pid)],
         "confirmation_output_tail": conf}
 json.dump(meta, open(os.path.join(dst, "meta.json"), "w"), indent=1)
 print("kept", dst)
